@@ -262,9 +262,9 @@ class Ctx:
         self.build_harness()
         return os.path.join(self.scratch, "harness-src")
 
-    def vh_run(self, args, timeout=1800, race=False, env_extra=None, race_target="race"):
+    def vh_run(self, args, timeout=1800, race=False, env_extra=None, race_target="race", binary=None):
         """Run the harness; returns the parsed REPORT object."""
-        vh = self.build_harness(race=race)
+        vh = binary or self.build_harness(race=race)
         env = self.goenv()
         env["VERIF_KNOWN"] = os.path.join(VERIF, "known_findings.json")
         env["VERIF_PID"] = self.pid
@@ -328,7 +328,7 @@ class Ctx:
                     out["extra"].setdefault(k, v)
         return out
 
-    def absorb(self, rep, args, label=None, in_flag="-in", race=False, race_target="race"):
+    def absorb(self, rep, args, label=None, in_flag="-in", race=False, race_target="race", binary=None):
         """Account a harness report into the evidence and remember its finding groups."""
         self.evaluations += rep.get("cases", 0)
         self.distinct_nontrivial += rep.get("nontrivial", 0)
@@ -339,8 +339,9 @@ class Ctx:
                 self.samples.append(s)
         ngroups = 0
         for key, g in (rep.get("groups") or {}).items():
-            self.groups.append({"key": key, "group": g, "args": list(args), "in_flag": in_flag,
-                                "label": label or rep.get("family"), "race": race, "race_target": race_target})
+            self.groups.append({"key": key, "group": g, "args": list(args) if args is not None else None, "in_flag": in_flag,
+                                "label": label or rep.get("family"), "race": race, "race_target": race_target,
+                                "binary": binary})
             ngroups += 1
         self.log("replay %s: %d cases (%d non-trivial), %d comparisons, %d disagreement group(s), %.1fs"
                  % (label or rep.get("family"), rep.get("cases", 0), rep.get("nontrivial", 0),
@@ -466,7 +467,7 @@ class Ctx:
         else:
             args += [g["in_flag"], path]
         try:
-            rep = self.vh_run(args, timeout=300)
+            rep = self.vh_run(args, timeout=300, binary=g.get("binary"))
         except MachineryError as e:
             self.log("reproduction run failed: %s" % e)
             return False
